@@ -153,6 +153,12 @@ class Emitter:
             lm = getattr(self, 'cur_lambda_map', None)
             if lm and t.name in lm and lm[t.name] != t.name:
                 t = T('named', lm[t.name], const=t.const)
+            rq = getattr(self, 'cur_rec_qual', None)
+            if rq and not t.args and '::' not in t.name and (rq + '::' + t.name) in self.ix.aliases:
+                # member typedef of the class whose member function is being emitted (using T = ...)
+                r = self.canon(parse_type(self.ix.aliases[rq + '::' + t.name]))
+                if t.const: r = _copyT(r); r.const = True
+                return r
             la = getattr(self, 'cur_local_alias', None)
             if la and not t.args and t.name in la:
                 r = self.canon(parse_type(la[t.name]))
@@ -656,6 +662,8 @@ class Emitter:
         rid = self.ix.parent_rec.get(fn['id']) or self.ix.parent_rec.get(self.ix.first.get(fn['id'], fn['id']))
         prev_la = getattr(self, 'cur_local_alias', {})
         self.cur_local_alias = self.ix.local_alias.get(fn['id'], {})
+        prev_rq = getattr(self, 'cur_rec_qual', None)
+        self.cur_rec_qual = self.ix.qual.get(rid) if rid is not None else None
         prev_lm = getattr(self, 'cur_lambda_map', {})
         self.cur_lambda_map = self.ix.lambda_map.get(fn['id'], {})
         proto = self.proto_of(fn, cn, fc)
@@ -685,7 +693,7 @@ class Emitter:
         self.func_text[cn] = (proto, body, fn)
         self.func_info[cn] = dict(qual=self.ix.qual.get(fn['id']), loc=loc_of(fn), loops=fc.loops, sig=fn['type']['qualType'],
                                   may_throw=fc.may_throw, ptr_refs=fc.ptr_refs)
-        self.fc = prev; self.cur_local_alias = prev_la; self.cur_lambda_map = prev_lm
+        self.fc = prev; self.cur_local_alias = prev_la; self.cur_lambda_map = prev_lm; self.cur_rec_qual = prev_rq
 
     def proto_of(self, fn, cn, fc=None):
         kind = fn['kind']
